@@ -1,6 +1,5 @@
 //! C18 JSON delta and snapshot streams are well-formed and exact.
 
-use std::collections::BTreeMap;
 use rpki::rtr::payload::{Action, Payload};
 use routinator::payload::SharedHistory;
 use serde_json::{json, Value};
